@@ -295,6 +295,100 @@ Section Conc.
   Qed.
 End Conc.
 
+(* ------------------------------------------------------------------ an executable scheduler, sound for `exec` *)
+Section Run.
+  Context {St : Type}.
+  Variable step : call -> St -> clk -> res (ret * St * clk).
+
+  Definition cstep_fun (l : label) (cf : conf) : option (@conf St) :=
+    match l with
+    | LInv t c =>
+        match cf_ph cf t with
+        | Idle => Some (mkConf (cf_obj cf) (cf_now cf) (cf_lock cf) (upd (cf_ph cf) t (Waiting c)))
+        | _ => None
+        end
+    | LAcq t =>
+        match cf_ph cf t, cf_lock cf with
+        | Waiting c, None => Some (mkConf (cf_obj cf) (cf_now cf) (Some t) (upd (cf_ph cf) t (Holding c)))
+        | _, _ => None
+        end
+    | LBody t c ds =>
+        match cf_ph cf t, cf_lock cf with
+        | Holding c', Some t' =>
+            if call_eqb c c' && Nat.eqb t t' && forallb (fun d => 0 <=? d) ds then
+              match step c' (cf_obj cf) (mkClk (cf_now cf) ds) with
+              | Ok (r, s', k') => Some (mkConf s' (now k') (cf_lock cf) (upd (cf_ph cf) t (Finished c' r)))
+              | _ => None
+              end
+            else None
+        | _, _ => None
+        end
+    | LRel t =>
+        match cf_ph cf t, cf_lock cf with
+        | Finished c r, Some t' =>
+            if Nat.eqb t t' then Some (mkConf (cf_obj cf) (cf_now cf) None (upd (cf_ph cf) t (Released c r)))
+            else None
+        | _, _ => None
+        end
+    | LRes t _ _ =>
+        match cf_ph cf t with
+        | Released c r => Some (mkConf (cf_obj cf) (cf_now cf) (cf_lock cf) (upd (cf_ph cf) t Idle))
+        | _ => None
+        end
+    | LEnv d => if 0 <=? d then Some (mkConf (cf_obj cf) (cf_now cf + d) (cf_lock cf) (cf_ph cf)) else None
+    end.
+
+  (* the labels as the scheduler resolves them (method and result filled in from the state) *)
+  Definition relabel (l : label) (cf : @conf St) : label :=
+    match l with
+    | LBody t _ ds => match cf_ph cf t with Holding c => LBody t c ds | _ => l end
+    | LRes t _ _ => match cf_ph cf t with Released c r => LRes t c r | _ => l end
+    | _ => l
+    end.
+
+  Fixpoint exec_fun (ls : list label) (cf : conf) : option (list label * @conf St) :=
+    match ls with
+    | [] => Some ([], cf)
+    | l :: r =>
+        match cstep_fun l cf with
+        | Some cf1 => match exec_fun r cf1 with
+                      | Some (ls', cf2) => Some (relabel l cf :: ls', cf2)
+                      | None => None
+                      end
+        | None => None
+        end
+    end.
+
+  Lemma cstep_fun_sound : forall l cf cf', cstep_fun l cf = Some cf' -> cstep step cf (relabel l cf) cf'.
+  Proof.
+    intros l cf cf' H. destruct l as [t c|t|t c ds|t|t c r|d]; cbn [cstep_fun relabel] in *.
+    - destruct (cf_ph cf t) eqn:E; try discriminate. inversion H; subst. apply S_inv. exact E.
+    - destruct (cf_ph cf t) eqn:E; try discriminate. destruct (cf_lock cf) eqn:EL; try discriminate.
+      inversion H; subst. eapply S_acq; eauto.
+    - destruct (cf_ph cf t) eqn:E; try discriminate. destruct (cf_lock cf) as [t'|] eqn:EL; try discriminate.
+      destruct (call_eqb c c0 && Nat.eqb t t' && forallb (fun d => 0 <=? d) ds) eqn:EB; try discriminate.
+      apply andb_true_iff in EB. destruct EB as [EB E3]. apply andb_true_iff in EB. destruct EB as [_ E2].
+      apply Nat.eqb_eq in E2. subst t'.
+      destruct (step c0 (cf_obj cf) (mkClk (cf_now cf) ds)) as [[[r s'] k']| |] eqn:ES; try discriminate.
+      inversion H; subst. rewrite <- EL. eapply S_body; eauto.
+      rewrite forallb_forall in E3. apply Forall_forall. intros x Hx. apply Z.leb_le. auto.
+    - destruct (cf_ph cf t) eqn:E; try discriminate. destruct (cf_lock cf) as [t'|] eqn:EL; try discriminate.
+      destruct (Nat.eqb t t') eqn:E2; try discriminate. apply Nat.eqb_eq in E2. subst t'.
+      inversion H; subst. eapply S_rel; eauto.
+    - destruct (cf_ph cf t) eqn:E; try discriminate. inversion H; subst. eapply S_res; eauto.
+    - destruct (0 <=? d) eqn:E; try discriminate. inversion H; subst. apply S_env. apply Z.leb_le. exact E.
+  Qed.
+
+  Lemma exec_fun_sound : forall ls cf ls' cf', exec_fun ls cf = Some (ls', cf') -> exec step cf ls' cf'.
+  Proof.
+    induction ls as [|l ls IH]; intros cf ls' cf' H; cbn in H.
+    - inversion H; subst. constructor.
+    - destruct (cstep_fun l cf) as [cf1|] eqn:E1; try discriminate.
+      destruct (exec_fun ls cf1) as [[ls2 cf2]|] eqn:E2; try discriminate.
+      inversion H; subst. econstructor; [apply cstep_fun_sound; exact E1|apply IH; exact E2].
+  Qed.
+End Run.
+
 (* ------------------------------------------------------------------ instances *)
 From DV Require Import Proofs.CacheRing Proofs.CacheDict Proofs.CacheLru Proofs.CacheSpec Proofs.CacheThm.
 
